@@ -244,13 +244,13 @@ def decDateTimeCore (s : Bytes) : Option YMDHMS :=
   else none
 
 def decDateTime (b : Bytes) : Dec (Option YMDHMS) :=
-  if b = [0,0,0,0,0,0,0] ∨ b = [0x20,0,0,0,0,0,0] then .val none
+  if b = [0,0,0,0,0,0,0] ∨ b = [0x00,0x01,0x01,0x01,0,0,0] ∨ b = [0x20,0,0,0,0,0,0] then .val none
   else match BCD.decode T b with
     | none => .err
     | some s => .val (decDateTimeCore s)
 
 def decDateTimePtr (b : Bytes) : Option (Option YMDHMS) :=
-  if b = [0,0,0,0,0,0,0] ∨ b = [0x20,0,0,0,0,0,0] then none
+  if b = [0,0,0,0,0,0,0] ∨ b = [0x00,0x01,0x01,0x01,0,0,0] ∨ b = [0x20,0,0,0,0,0,0] then none
   else match BCD.decode T b with
     | none => none
     | some s => some (decDateTimeCore s)
